@@ -14,7 +14,8 @@ impl TypeBuilder for PostgresQueryBuilder {
             self.prepare_create_as_type(as_type, sql);
         }
 
-        if !create.values.is_empty() {
+        // `AS ENUM` is always followed by the (possibly empty) parenthesised label list
+        if !create.values.is_empty() || create.as_type.is_some() {
             write!(sql, " (").unwrap();
 
             for (count, val) in create.values.iter().enumerate() {
